@@ -96,6 +96,7 @@ def run(ctx):
     r4(ctx)
     r5(ctx)
     r6(ctx, bearing)
+    used_vars_unmodified(ctx, "R3")
     ctx.rule("R9", "rewriters of a top-level rule inherit the environment the rule has just matched into (the variables check_var lets a rewriter's fix use), never the caller's pre-match environment")
     r9(ctx)
     ctx.rule("R8", "a variable occurrence in a fix/message is replaced from the environment map of its own class: single capture, ellipsis capture, transformed value")
@@ -103,6 +104,32 @@ def run(ctx):
     ctx.rule("R7", "the kind set the acceptance test looks at is the kind set of what will be matched (every Matcher impl: potential_kinds covers match_node_with_env; "
              "a `matches` reference resolves to the same rule in both) — obligations shared with C01 R1/R2")
     r7(ctx)
+
+
+STR_RESHAPE = re.compile(r"^(trim|strip_|replace|to_lowercase|to_uppercase|to_ascii|split|rsplit|index$|get$|get_unchecked|chars$|char_indices|bytes$|find$|rfind$|repeat|concat|join|format)")
+
+
+def used_vars_unmodified(ctx, rid):
+    """A transformation's source variable is looked at twice: check_var asks whether it is defined, the topological sort asks whether it
+    is another transformation (dependency, order of application).  Both must look it up under the SAME name, i.e. use the result of
+    `Transformation::used_vars()` as it is.  If one of them normalises the name (`trim_start_matches('$')`, lower-casing, …) the check
+    accepts a source that the sort does not recognise as a dependency: the transformations then run in HashMap order and a
+    transformation may read its source before it exists."""
+    prog = ctx.prog
+    sites = prog.who_calls(r"^ast_grep_config::transform::(transformation::Transformation|trans::Trans)::<.*>::used_vars$")
+    ctx.floor(rid, "consumers of Transformation::used_vars", len(sites), 2)
+    for n, c in enumerate(sorted(sites, key=lambda c: c.fn.id)):
+        f = c.fn
+        reshaped = []
+        for c2 in f.calls:
+            if c2 is c or c2.bb not in f.live_blocks or not c2.args or c2.args[0][0] == "k":
+                continue
+            if STR_RESHAPE.match(c2.name) and "str" in c2.best and any(o.kind == "call" and o.ref is c for o in deep_roots(prog, f, c2.args[0], TRANSPARENT)):
+                reshaped.append(c2.name)
+        ctx.ob(rid, "%s uses used_vars() as it is" % f.id, not reshaped,
+               "the name is looked up unmodified" if not reshaped else
+               "the source variable's name is passed through %s before it is looked up here, but not by the other consumer: the defined-variable check and the dependency sort "
+               "disagree about which names are the same (a `$$T` source is accepted yet not ordered after transformation T)" % reshaped, where=f.loc(c.line))
 
 
 ENV_PASS = {"clone", "to_mut", "deref", "deref_mut", "as_ref", "as_mut", "borrow", "borrow_mut", "unwrap_or", "unwrap_or_else", "unwrap", "expect", "map", "cloned", "into_owned", "to_owned"}
